@@ -186,9 +186,9 @@ theorem deleteRange_respects (S : Schema) (doc : Node) (f t f' t' : Nat) (st : S
     `ReplaceStep(f, t, slice)` that `replace_step` returns satisfies the monitor for the request
     `(f, t, slice)` — on that path `respects_replace` needs no monitored hypothesis -/
 theorem fitsTrivially_respects (S : Schema) (doc : Node) (f t : Nat) (sl : Slice) (hft : f ≤ t)
-    (h : fitsTrivially S doc f t sl = some true) :
+    (h : fitsTriviallyO S doc f t sl = some true) :
     respects (ftoks doc.kids) f t sl (.replace f t sl false) = true := by
-  unfold fitsTrivially at h
+  unfold fitsTriviallyO at h
   split at h
   · rename_i rf rt hf ht
     have Rt := resolve_resolved ht
@@ -243,8 +243,8 @@ example :
     let doc := Node.elem 0 [] [] [.elem 1 [] [] [.text [97, 98] []], .elem 1 [] [] [.text [99, 100] []]]
     deleteRangeTarget S doc 1 3 = some (0, 4) ∧ deleteRangeTarget S doc 1 6 = some (0, 6) ∧
     deleteRangeTarget S doc 2 3 = some (2, 3) ∧
-    fitsTrivially S doc 2 2 ⟨[.text [120] []], 0, 0⟩ = some true ∧
-    fitsTrivially S doc 1 3 Slice.empty = some false := by decide
+    fitsTriviallyO S doc 2 2 ⟨[.text [120] []], 0, 0⟩ = some true ∧
+    fitsTriviallyO S doc 1 3 Slice.empty = some false := by decide
 
 /-! ## The Fitter (model PM/Fitter.lean, tied exactly on the emitted step)
 
